@@ -18,9 +18,9 @@ def jobs(tier):
     js = []
     thorough = tier == "thorough"
 
-    def J(name, src, entry, fns, inputs, cls="P", kind="obligation", timeout=120, **kw):
+    def J(name, src, entry, fns, inputs, cls="P", kind="obligation", timeout=None, **kw):
         d = {"name": name, "src": src, "entry": entry, "functions": fns, "inputs": inputs,
-             "cls": cls, "kind": kind, "timeout": timeout}
+             "cls": cls, "kind": kind, "timeout": timeout or (900 if thorough else 240)}
         d.update(kw)
         js.append(d)
         return d
@@ -83,7 +83,7 @@ def jobs(tier):
                          ("unique", ["bitvUnique1IndexInRange", "bitvTest"], ["nbits", "rv", "org", "lim"])):
         J("bitv.model_" + nm, B, "h_bitv_model_" + nm, fns, ins, cls="B", bound="nbits<=%d" % modbits, native=True,
           defs=["-DBV_MODW=1", "-DBV_MODBITS=%d" % modbits],
-          cbmc=["--unwind", str(modbits + 1), "--unwinding-assertions"], timeout=900 if thorough else 120)
+          cbmc=["--unwind", str(modbits + 1), "--unwinding-assertions"], timeout=900 if thorough else 240)
     J("bitv.int_roundtrip", B, "h_bitvInt_roundtrip", ["bitvFromInt", "bitvToInt", "bitvSet", "bitvClear", "bitvTest"], ["nbits", "n"],
       cbmc=["--unwind", "32", "--unwinding-assertions"], native=True, defs=["-DV_ALLOC_SIMPLE"])
 
@@ -101,25 +101,26 @@ def jobs(tier):
     J("priq.new", Q, "h_priq_new", ["priqNew", "cielLg"], ["guess"], cls="B", bound="argcGuess<=64", native=True,
       cbmc=["--unwindset", "cielLg.0:8,pq_heap_ordered.0:2", "--unwinding-assertions"])
     AQ = ["n", "key", "ent", "gk", "ge"]
-    top = 16 if thorough else 8
-    to = 900 if thorough else 120
+    top = 12 if thorough else 8       # (n = 13..15 did not finish in 900 s)
+    to = 1800 if thorough else 240
     # insert into a FULL queue of every size up to the cap (doubles through stoResize), one job per size
     sz = 1
-    while sz <= top:
+    while sz <= (16 if thorough else 8):
         J("priq.insert_step.full%d" % sz, Q, "h_priq_insert_step", ["priqInsert", "heapInsert", "heapSiftInward"], AQ + ["k", "e"],
           cls="B", bound="any well-formed full queue of %d entries in %d slots" % (sz, sz), native=True,
           defs=["-DPQ_SIZE=%d" % sz, "-DPQ_NLO=%d" % sz, "-DPQ_NHI=%d" % sz], cbmc=pq_unw("h_priq_insert_step", sz, 1, 2), timeout=to)
         sz *= 2
-    # insert into / extract from a queue of n entries, n = 0..top, one job per n (together: every n)
+    # insert into / extract from a queue of n entries in psz slots, n = 0..top, one job per n (together: every n)
+    psz = 16 if thorough else 8
     for n in range(0, top + 1):
-        d = ["-DPQ_SIZE=%d" % top, "-DPQ_NLO=%d" % n, "-DPQ_NHI=%d" % n]
+        d = ["-DPQ_SIZE=%d" % psz, "-DPQ_NLO=%d" % n, "-DPQ_NHI=%d" % n]
         bd = "any well-formed queue of exactly %d entries (jobs n=0..%d together: <=%d entries)" % (n, top, top)
-        if n < top:
+        if n < psz:
             J("priq.insert_step.n%d" % n, Q, "h_priq_insert_step", ["priqInsert", "heapInsert", "heapSiftInward"], AQ + ["k", "e"],
-              cls="B", bound=bd, native=True, defs=d, cbmc=pq_unw("h_priq_insert_step", top, 1, n + 2), timeout=to)
+              cls="B", bound=bd, native=True, defs=d, cbmc=pq_unw("h_priq_insert_step", psz, 1, n + 2), timeout=to)
         if n >= 1:
             J("priq.extract_step.n%d" % n, Q, "h_priq_extract_step", ["priqExtractMin", "heapExtractMin", "heapSiftOutward"], AQ + ["g"],
-              cls="B", bound=bd, native=True, defs=d, cbmc=pq_unw("h_priq_extract_step", top, 1, n + 2), timeout=to)
+              cls="B", bound=bd, native=True, defs=d, cbmc=pq_unw("h_priq_extract_step", psz, 1, n + 2), timeout=to)
     J("priq.peek_step", Q, "h_priq_peek_step", ["priqPeekMin", "heapPeekMin"], AQ + ["g"], cls="B",
       bound="any well-formed queue of 1..8 entries", native=True, defs=["-DPQ_SIZE=8"], cbmc=pq_unw("h_priq_peek_step", 8, 1, 9), timeout=to)
     d = ["-DPQ_SIZE=4"]
@@ -130,7 +131,7 @@ def jobs(tier):
     maxn = 5 if thorough else 4
     d = ["-DPQ_MAXN=%d" % maxn]
     J("priq.integration.sort", Q, "h_priq_sort", PQF, ["n", "key"], cls="B", native=True, bound="<=%d entries" % maxn, defs=d,
-      cbmc=pq_unw("h_priq_sort", 8, 1, maxn + 1), timeout=2400 if thorough else 120)
+      cbmc=pq_unw("h_priq_sort", 8, 1, maxn + 1), timeout=2400 if thorough else 240)
     J("canary.priq.sort", Q, "h_priq_sort", PQF, ["n", "key"], cls="B", kind="canary", defs=d + ["-DCANARY_priq_sort"],
       cbmc=pq_unw("h_priq_sort", 8, 1, maxn + 1), bound="<=%d entries" % maxn)
 
@@ -160,7 +161,7 @@ def jobs(tier):
         J(name, T, entry, fns, TIN + ins, cls="B", kind=kind, native=True, bound=bd,
           defs=(["-DTB_FUNS"] if funs else []) + ["-DTB_NC=%d" % nc, "-DTB_BUCKC=%d" % buckc, "-DTB_N=%d" % n]
                + (["-DTB_HMAX=%d" % hmax] if hmax else []) + list(extra),
-          cbmc=tb_unw(entry, nc, nk, buckc), timeout=timeout or (900 if thorough else 120))
+          cbmc=tb_unw(entry, nc, nk, buckc), timeout=timeout or (900 if thorough else 240))
     J("table.new", T, "h_tbl_new", ["tblNew", "tblNew0", "tblElt", "tblSize"], [], cls="B", bound="empty table", native=True,
       defs=["-DTB_FUNS"], cbmc=tb_unw("h_tbl_new", 3, 6, 7))
     STEPF = ["tblSetElt", "tblElt", "tblDrop", "tblSize", "tblEnlarge"]
@@ -171,7 +172,7 @@ def jobs(tier):
         for buckc in (1, 2, 7):
             hm = 16 if buckc == 7 else None
             # 7 buckets (what tblNew makes) with >= 2 entries: minutes per job, thorough tier only
-            top = nc if (buckc != 7 or thorough) else 1
+            top = nc if buckc != 7 else ((3 if funs else 2) if thorough else 1)   # ptr, 7 buckets, 3 entries: no result in 1800 s
             for n in range(0, top + 1):
                 tb("table.step.%s.b%d.n%d" % (tag, buckc, n), "h_tbl_step", STEPF, SIN, funs, nc, buckc, n=n, hmax=hm,
                    timeout=1800 if buckc == 7 and n >= 2 else None)
@@ -180,7 +181,6 @@ def jobs(tier):
         tb("table.enlarge.%s.b2" % tag, "h_tbl_enlarge", ["tblEnlarge", "tblElt"], ["gki", "dflt"], funs, nc, 2, hmax=16)
         tb("table.copy.%s.b2" % tag, "h_tbl_copy", ["tblCopy", "tblDrop", "tblElt"], ["gki", "dflt"], funs, nc, 2)
         if thorough:
-            tb("table.enlarge.%s.b7" % tag, "h_tbl_enlarge", ["tblEnlarge", "tblElt"], ["gki", "dflt"], funs, nc, 7, hmax=128, timeout=1800)
             for n in range(0, 5):
                 tb("table.step.%s.nc4.b2.n%d" % (tag, n), "h_tbl_step", STEPF, SIN, funs, 4, 2, n=n, timeout=1800)
     if thorough:
@@ -199,7 +199,7 @@ def jobs(tier):
     def dn(name, entry, fns, ins, tx=1, ty=1, kind="obligation", extra=(), timeout=None):
         J(name, D, entry, fns, ["v"] + ins, cls="B", kind=kind, native=True, checks=DCHK, cbmc=DUNW,
           bound="<=3 atoms; any well-formed X with %d and Y with %d terms" % (tx, ty),
-          defs=["-DDN_TX=%d" % tx, "-DDN_TY=%d" % ty] + list(extra), timeout=timeout or (2400 if thorough else 120))
+          defs=["-DDN_TX=%d" % tx, "-DDN_TY=%d" % ty] + list(extra), timeout=timeout or (2400 if thorough else 240))
     XY = ["xlen", "xlit", "ylen", "ylit"]
     dn("dnf.constants_and_literals", "h_dnf_consts", ["dnfTrue", "dnfFalse", "dnfAtom", "dnfNotAtom", "dnfIsTrue", "dnfIsFalse", "dnfCopy"], ["at", "neg"])
     dn("dnf.term.dnfAndMerge", "h_dnf_term_merge", TERMF, XY)
@@ -210,7 +210,7 @@ def jobs(tier):
         dn("dnf.dnfOr.%dx%d" % (tx, ty), "h_dnf_or", ["dnfOr", "dnfOrMerge", "dnfIsTrue", "dnfIsFalse"] + TERMF, XY, tx, ty)
         dn("dnf.dnfAnd.%dx%d" % (tx, ty), "h_dnf_and", ["dnfAnd", "dnfOrMerge", "dnfIsTrue", "dnfIsFalse"] + TERMF, XY, tx, ty)
         dn("dnf.dnfImplies_dnfEqual.%dx%d" % (tx, ty), "h_dnf_implies", ["dnfImplies", "dnfEqual", "dnfAndImplies"], XY, tx, ty)
-    for tx in ((1, 2) if thorough else (1,)):
+    for tx in (1,):      # 2 terms: no result in 2400 s
         dn("dnf.dnfNot.%d" % tx, "h_dnf_not", ["dnfNot", "dnfAnd", "dnfAndNot", "dnfOrMerge"] + TERMF, XY[:2], tx, 1)
     dn("dnf.witness.or_of_and_terms", "h_dnf_witness_or", ["dnfOr", "dnfAnd", "dnfAtom", "dnfNotAtom", "dnfOrMerge", "dnfAndCancelNegation"], [])
     dn("dnf.witness.cancel_writes_past_term", "h_dnf_witness_cancel_overflow", ["dnfOr", "dnfAnd", "dnfOrMerge", "dnfAndCancelNegation"], [])
@@ -230,7 +230,7 @@ def jobs(tier):
         J(name, BT, entry, fns, BIN + ins, cls="B", kind=kind, native=True, checks=BCHK,
           bound="t=2, any well-formed tree of height %d (<=%d keys)" % (h, {1: 3, 2: 15, 3: 63}[h]),
           defs=["-DBT_T=2", "-DBT_H=%d" % h] + list(extra), cbmc=["--unwindset", ",".join(us), "--unwind", "5", "--unwinding-assertions"],
-          timeout=timeout or (1800 if thorough else 120))
+          timeout=timeout or (1800 if thorough else 240))
     SRCH = ["btreeSearchEQ", "btreeSearchGE", "btreeSearchMin", "btreeSearchMax"]
     bt("btree.new", "h_bt_new", ["btreeNewX", "btreeCheck"] + SRCH[:2], [], 1)
     bt("btree.search.h1", "h_bt_search", SRCH, ["k"], 1)
@@ -244,6 +244,5 @@ def jobs(tier):
         bt("canary.btree.delete", "h_bt_delete", ["btreeDeleteX"], ["k"], 1, kind="canary", extra=["-DCANARY_bt_delete"])
         bt("btree.search.h2", "h_bt_search", SRCH, ["k"], 2)
         bt("btree.check.h2", "h_bt_check", ["btreeCheck", "btreeCheck0"], [], 2)
-        bt("btree.delete.h2", "h_bt_delete", ["btreeDeleteX", "btreeDelete0", "btreeUnsplitChild", "btreeRotateUp", "btreeRotateDown"], ["k"], 2, timeout=3600)
-        bt("btree.insert.h2", "h_bt_insert", ["btreeInsertX", "btreeSplitChild"], ["k", "e"], 2, timeout=3600)
+        # height 2 insert/delete (split of a child, unsplit, rotations): the verifier runs out of 8 GB / gives no result in 1 h -- NOT covered
     return js
